@@ -1,7 +1,7 @@
 from common import T_COMMON
 
 CFG = dict(
-    theorems=["vertices_check_sound", "indices_check_sound", "winding_check_sound"],
+    theorems=["vertices_check_sound", "indices_check_sound", "winding_check_sound", "inCircleDet_eq", "inCircleDet_on_circle", "orient_smul", "inCircleDet_smul", "inCircle_neg_of_inside", "circumcentre_exists", "inCircle_iff", "delaunay_check_raw", "delaunay_check_sound", "sep_key", "sepEdge_sound", "overlap_check_sound"],
     streams=[dict(name="c20", n=dict(quick=240, thorough=6000))],
     trusted=T_COMMON,
     residue=[],
